@@ -58,3 +58,48 @@ def install(g, prop, model_names):
     g.setdefault("RULE", " || ".join(rules))
     g["TRUSTED"] = list(g.get("TRUSTED", [])) + trusted
     g["ASSUMPTIONS"] = list(g.get("ASSUMPTIONS", [])) + assumptions
+
+
+def second(ctx, prop, pseudo, model_names, cov, findings, known, tie_theorem, parallel=8):
+    """Run the ops of the model groups `model_names` as a second correspondence of `prop` (generator registered under
+    `pseudo` in harness/cmd/vh) and merge the results into (cov, findings, known).  Used by property modules that keep
+    their own runner (C10, C16) and want a format model's ops as well."""
+    import types, runner
+    tokens = []
+    for n in model_names:
+        tokens += list(getattr(__import__(n), "TOKENS", []))
+    mine = lambda o: o.split(" ", 1)[0] in tokens
+    rops = ctx.get("replay_ops")
+    if rops is not None:
+        sel = [o for o in rops if mine(o)]
+        if not sel:
+            return cov, findings, known
+        ctx = dict(ctx, replay_ops=sel)
+    ns = {"TIE": "corr:" + "+".join(model_names), "TIE_THEOREM": tie_theorem, "IMPL_PARALLEL": parallel}
+    install(ns, prop, model_names)
+    orig = runner.load_known
+    runner.load_known = lambda: [dict(k, property=pseudo) if k.get("property") == prop else k for k in orig()]
+    try:
+        c2, f2, k2 = runner.correspondence(pseudo, ctx, types.SimpleNamespace(**ns))
+    finally:
+        runner.load_known = orig
+    for key in ("evaluations", "op_lines", "distinct_nontrivial", "traces_validated_against_impl"):
+        cov[key] = cov.get(key, 0) + c2.get(key, 0)
+    cov.setdefault("op_kinds", {}).update(c2.get("op_kinds", {}))
+    cov.setdefault("model_branches", {}).update({"+".join(model_names) + " " + k: v for k, v in list(c2.get("model_branches", {}).items())[:25]})
+    if ns.get("RULE") and ns["RULE"] not in cov.get("rule", ""):
+        cov["rule"] = (cov.get("rule", "") + " || " if cov.get("rule") else "") + ns["RULE"]
+    k2 = [(dict(k, property=prop), op) for k, op in k2]
+    return cov, findings + f2, known + k2
+
+
+def split_replay(ctx, model_names):
+    """(ctx for the property's own ops, True if the replay has none of them)"""
+    tokens = []
+    for n in model_names:
+        tokens += list(getattr(__import__(n), "TOKENS", []))
+    rops = ctx.get("replay_ops")
+    if rops is None:
+        return ctx, False
+    own = [o for o in rops if o.split(" ", 1)[0] not in tokens]
+    return dict(ctx, replay_ops=own), not own
